@@ -463,6 +463,29 @@ func freeLLMNRClient(c *h.Ctx, lg *evLog, queries int, seed int64) error {
 		}
 	}
 	wg.Wait()
+	// Close while a Query is still in flight (no answer will come): the Query must return within its own timeout
+	// (2 s) plus a margin, Close must return at once, and nothing of the package may keep running afterwards.
+	cli2, err := llmnr.NewClient()
+	if err == nil {
+		qdone := make(chan struct{})
+		go func() {
+			cli2.Query(context.Background(), "nobody-answers-this", 1)
+			close(qdone)
+		}()
+		time.Sleep(20 * time.Millisecond)
+		cdone := make(chan struct{})
+		go func() { cli2.Close(); close(cdone) }()
+		select {
+		case <-cdone:
+		case <-time.After(3 * time.Second):
+			c.Fail("llmnr.Client.Close", "stop-hang", "Close did not return within 3 s while a Query was in flight", nil)
+		}
+		select {
+		case <-qdone:
+		case <-time.After(4 * time.Second):
+			c.Fail("llmnr.Client.Query", "query-outlives-close", "a Query in flight when Close was called had not returned 4 s later (its own timeout is 2 s)", nil)
+		}
+	}
 	close(stopResp)
 	rmu.Lock()
 	if collision {
